@@ -40,6 +40,9 @@ def svcKeys : List String := [
   "field service.ExtProps.PostStartFuncs[]",
   "ext apimapper/apientry",                 -- CallWithSerialize → handler method
   "ext node/client/impls",                  -- ClientSessions.AddSession / RemoveSession / ProcessMessage
+  -- utils/waterfall (Sche / Builder): the steps and the final callback of a chain run on a service's scheduler
+  "field waterfall.Chain.tasks[]",          -- Chain.invokeTask → step
+  "field waterfall.Chain.final",            -- Chain.invokeFinal → final callback
   -- user code run while the actor object is constructed (spawner's goroutine, before the service exists)
   "value actor.Producer",
   "field service.ExtProps.PostFuncs[]",
@@ -108,7 +111,10 @@ def reviewedLitKinds : List String := [
   "arg:apimapper/apientry.CallWithSerialize",   -- completion callback handed to the handler
   "arg:iface actor.Dispatcher.Schedule",        -- m.processMessages handed to the dispatcher
   "arg:actor.WithMailbox",                      -- mailbox constructor closure
-  "arg:actor.PropsFromProducer"]                -- actor construction
+  "arg:actor.PropsFromProducer",                -- actor construction
+  "assigned:field waterfall.Chain.callbackFunc"] -- the completion callback waterfall.Sche hands to every step: the step may call it from
+                                                -- ANY goroutine, so the translator makes the closure a goroutine root (one of `timerRoots`):
+                                                -- `entry_only_via_loop` then says it reaches no step / final except through `Sche.Post`
 
 def kindReviewed (k : String) : Bool :=
   reviewedLitKinds.contains k || svcKeys.any fun key => k == "stored:" ++ key
@@ -131,7 +137,8 @@ def loopKeys : List String := [
   "iface actor.MessageInvoker.EscalateFailure",
   "field service.RequestWaitResponse.CB", "iface service.IAPIDispatcher.Dispatch",
   "iface service.IRequestReceiver.ReceiveRequest", "field service.ExtProps.PostStartFuncs[]",
-  "ext apimapper/apientry"]
+  "ext apimapper/apientry",
+  "field waterfall.Chain.tasks[]", "field waterfall.Chain.final"]
 
 /-! ### derived sets (strings are resolved to indices once; everything else is `Nat`) -/
 
